@@ -98,6 +98,15 @@ func describeClientErr(err error, r *e2eReply) {
 	var e2 *varlink.MethodNotFound
 	var e3 *varlink.MethodNotImplemented
 	var e4 *varlink.InvalidParameter
+	// the typed errors and *varlink.Error are returned as such, not wrapped
+	switch err.(type) {
+	case *varlink.InterfaceNotFound, *varlink.MethodNotFound, *varlink.MethodNotImplemented, *varlink.InvalidParameter, *varlink.Error:
+	default:
+		if errors.As(err, &ve) || errors.As(err, &e1) || errors.As(err, &e2) || errors.As(err, &e3) || errors.As(err, &e4) {
+			r.Err = "other: wrapped varlink error: " + err.Error()
+			return
+		}
+	}
 	switch {
 	case errors.As(err, &e1):
 		r.Err, r.ErrField = "InterfaceNotFound", e1.Interface
@@ -989,7 +998,7 @@ func genC03(seed uint64, tier string) Scenario {
 		switch {
 		case g.Pct(8):
 			// error replies carry parameters too (and oneway calls get none of them)
-			sc.Actions = append(sc.Actions, Action{Op: "error", Name: "a.b." + g.Pick("E", "Failed"), Params: p})
+			sc.Actions = append(sc.Actions, Action{Op: "error", Name: "a.b." + g.Pick("E", "Failed", "InvalidParameter", "MethodNotFound"), Params: p})
 		case g.Pct(4):
 			sc.Actions = append(sc.Actions, Action{Op: "builtin", Name: g.Pick("MethodNotFound", "MethodNotImplemented", "InvalidParameter"), Arg: g.String(8)})
 		default:
